@@ -205,3 +205,60 @@ func VerifC05Crash() {
 	view := r.Index().Get("").([]ipfslog.Entry)
 	vstub.Assert(len(view) == len(rec), "C05 the recovered view lists exactly the recovered entries")
 }
+
+// VerifC16Backfill: a merged remote batch produces a replicated event even when
+// it does not move the heads: a store loads only the k most recent entries of a
+// persisted chain (limit), then receives - by Sync or LoadMoreFrom - the newest
+// entry below its window; the replicator fetches the older history and merges
+// it behind the current heads.  Every merged entry is announced by exactly one
+// EventReplicated, and when the event is emitted the entries are in the log.
+func VerifC16Backfill() {
+	t := vstub.Param("T", 4)
+	blocks := vstub.NewBlocks(nil)
+	a, envA := openWith("a", blocks, nil, nil)
+	if a == nil {
+		return
+	}
+	ctx := context.Background()
+	addN(a, t, 'a')
+	all := a.OpLog().Values().Slice()
+	_ = a.Close()
+	r, envR := openWith("a", blocks, envA.Cache, nil)
+	if r == nil {
+		return
+	}
+	k := 1 + vstub.NdChoice("window", t-1)
+	if err := r.Load(ctx, k); err != nil {
+		vstub.Fail("C16 partial Load failed")
+		return
+	}
+	vstub.WaitIdle()
+	vstub.Assert(r.OpLog().Len() == k, "C16 harness: the window holds k entries")
+	announced := map[string]int{}
+	events := 0
+	hb := envR.Bus.(*vstub.HookBus)
+	hb.OnEmit = func(evt interface{}) {
+		if e, ok := evt.(stores.EventReplicated); ok {
+			events++
+			for _, x := range e.Entries {
+				announced[x.GetHash().String()]++
+				_, inLog := r.OpLog().Get(x.GetHash())
+				vstub.Assert(inLog, "C16 on EventReplicated every announced entry is already in the log")
+			}
+		}
+	}
+	below := all[len(all)-k-1] // the newest entry the store does not hold
+	if vstub.NdChoice("via", 2) == 0 {
+		_ = r.Sync(ctx, []ipfslog.Entry{below.Copy()})
+	} else {
+		r.LoadMoreFrom(ctx, 0, []ipfslog.Entry{below.Copy()})
+	}
+	vstub.WaitIdle()
+	hb.OnEmit = nil
+	vstub.Cover("backfilled")
+	vstub.Assert(r.OpLog().Len() == t, "C16/C01 the older history is merged behind the current heads")
+	vstub.Assert(events >= 1, "C16 a merged remote batch produces a replicated event even if the heads do not move")
+	for j := 0; j < len(all)-k; j++ {
+		vstub.Assert(announced[all[j].GetHash().String()] == 1, "C16 every merged entry is announced by exactly one replicated event")
+	}
+}
